@@ -18,7 +18,8 @@ NANV = -99999
 GRIDS = {1: (0.5, 0.0), 2: (0.1, 0.05)}
 BTYPE = {"static": "StaticBinning", "static_pairs": "StaticBinning", "numpy": "NumpyBinning", "fixed": "FixedWidthBinning",
          "exp": "ExponentialBinning"}
-CUSTOM = {0: {}, 1: {"tag": "x"}, 2: {"n": 3, "nested": [1, 2.5, {"a": None}]}, 3: {"flag": True}, 4: {"radius": 2.5}}
+CUSTOM = {0: {}, 1: {"tag": "x"}, 2: {"n": 3, "nested": [1, 2.5, {"a": None}]}, 3: {"flag": True}, 4: {"radius": 2.5},
+          5: {"run": 0, "calibrated": False, "comment": "", "scale": 0.0, "tags": [], "extra": {}}}
 
 
 def same_bits(a, b) -> bool:
